@@ -16,34 +16,19 @@ COMMON_TRUSTED = [
 ]
 
 
-def _c02_nontrivial(t):
-    # enc secret chal plaintext: non-empty plaintext
-    return len(t) >= 5 and t[4] != "-"
+
+PROPS = {}
 
 
-PROPS = {
-    "C02": {
-        "module": "Swat4.Properties.C02",
-        "theorems": [
-            "Swat4.C02.C02_main",
-            "Swat4.C02.encrypt_total",
-            "Swat4.C02.encrypt_length",
-            "Swat4.C02.dec_enc_stream",
-            "Swat4.C02.key_agree",
-            "Swat4.C02.schedule_agree",
-            "Swat4.C02.facts_ok",
-            "Swat4.C02.C02_swat4",
-        ],
-        "shards": (1, 16),
-        "nontrivial": _c02_nontrivial,
-        "rule": "random (secret, challenge, plaintext) triples: secrets from {SWAT4 key, random 7-bit, edge 7-bit, "
-                "random 8-bit NUL-free}, challenges and plaintexts biased to 00/FF/5C runs, lengths 0..64KiB; "
-                "Go crypt.Encrypt output compared byte-for-byte with the Lean model (random header bytes recovered "
-                "from the output) and decoded by the independent SDK-style reference decoder; non-trivial = plaintext non-empty",
-        "assumptions": [
-            "the SDK reference decoder (Spec/GOA.lean) is a transcription of the GameSpy SDK algorithm from knowledge of it; the SDK sources are not available offline",
-            "secrets are NUL-free (C string); for 8-bit secrets the SDK's signed char arithmetic is not modelled (outside the property's 7-bit quantifier)",
-        ],
-        "trusted_base": COMMON_TRUSTED,
-    },
-}
+def _load():
+    import importlib.util, os, re
+    d = os.path.join(os.path.dirname(os.path.abspath(__file__)), "propcfg")
+    for fn in sorted(os.listdir(d)):
+        if re.fullmatch(r"C\d\d\.py", fn):
+            spec = importlib.util.spec_from_file_location("propcfg_" + fn[:-3], os.path.join(d, fn))
+            m = importlib.util.module_from_spec(spec)
+            spec.loader.exec_module(m)
+            PROPS[fn[:-3]] = m.CFG
+
+
+_load()
